@@ -33,11 +33,11 @@ PROFILE = {"weights": {"timeout": 6, "zero": 1, "wait": 2, "succeed": 2, "fail":
 
 
 def plan(tier):
-    return {"shards": 4, "timeout": 600} if tier == "quick" else {"shards": 16, "timeout": 3000}
+    return {"shards": 4, "timeout": 600} if tier == "quick" else {"shards": 16, "timeout": 3400}
 
 
 def ncases(tier):
-    return 8000 if tier == "quick" else 25000
+    return 8000 if tier == "quick" else 80000
 
 
 class Clock:
